@@ -153,6 +153,20 @@ Proof.
            G HG HnG c x yb j Hc Hx Hyb Hj Hz).
 Qed.
 
+(* the precondition asserted inside the construction's innermost loop
+   (`len(xk) == len(holds)`; the translator lists it as a dropped
+   precondition) holds for every list the translated solver records *)
+Theorem C02_asserted_lengths_hold :
+  forall nc nx ny (E S : bdd) (holds goals : list bdd) (moore plus_one : bool) fuel,
+  NV nc nx ny <= fuel -> Forall spred holds -> Forall spred goals ->
+  forall xjk xk,
+  In xjk (snd (Gr1Gen.solve_streett_game nc nx ny E S holds goals moore plus_one fuel)) ->
+  In xk xjk -> length xk = length holds.
+Proof.
+  intros nc nx ny E S holds goals moore plus_one fuel Hf Sh Sg.
+  exact (solve_trap_lists_complete nc nx ny E S holds goals moore plus_one fuel Hf Sh Sg).
+Qed.
+
 Theorem C02_region_closed :
   forall nc nx ny (E S : bdd) (holds goals : list bdd) (moore plus_one : bool) fuel G v,
   NV nc nx ny <= fuel -> Forall spred holds -> Forall spred goals -> 0 < G ->
@@ -218,6 +232,7 @@ Qed.
 
 Print Assumptions C02_construction_is_translated.
 Print Assumptions C02_counter_field_fits.
+Print Assumptions C02_asserted_lengths_hold.
 Print Assumptions C02_never_blocks.
 Print Assumptions C02_region_closed.
 Print Assumptions C02_reachable_states_winning.
